@@ -78,7 +78,7 @@ def validate_parallel(c, events, k=4):
             ev = sub[rej['line'] - 1]
             mol = mol_of[lo + rej['line'] - 1]
             key = '%s|dove=%s|%s|%s|%s' % (rej['clause'], ev.get('dove'), ev.get('path'),
-                                           'requeried_object' if ev.get('requeried') else 'first_query', shape(mol))
+                                           ('requeried_other_dove_setting' if ev.get('run_kind') == 'mixed' else 'requeried_object') if ev.get('requeried') else 'first_query', shape(mol))
             what = '%s: get_consensus(dove_safe=%s%s) after adding %s (%s) returned %s' % (
                 rej['clause'], ev.get('dove'), ', with_probs_and_obs=True' if ev.get('path') == 'probs' else '', ev.get('order'),
                 'same object queried before' if ev.get('requeried') else 'first query on a fresh molecule',
